@@ -363,7 +363,7 @@ def _quantifier_parts(cx, a):
     bound = a["self"].fields["bound"]
     if isinstance(bound, str):
         from pyvc.builtins import Builtins
-        kt = z3.IntVal(hash(("s", bound)) % (2 ** 31) + 1000)
+        kt = z3.IntVal(__import__("zlib").crc32(bound.encode()) + 1000)
         return s0, l0, kt, True
     return s0, l0, bound.ident, False
 
@@ -565,7 +565,7 @@ class Constraint_eval(Contract):
 
     def _ids(self, cx, a):
         e = a["expression"]
-        eid = e.ident if isinstance(e, SOpaque) else z3.IntVal(hash(("s", e)) % (2 ** 31) + 1000)
+        eid = e.ident if isinstance(e, SOpaque) else z3.IntVal(__import__("zlib").crc32(e.encode()) + 1000)
         return cx.ghost["self_id"], eid, cx.ghost["cur_combo"]
 
     def may_raise(self, cx, a):
